@@ -47,8 +47,11 @@ func main() {
 	c.Set("exhaustive", false)
 	c.Assume("the Source (user resolver) returns promptly once its context is cancelled; the context InitFunc returns descends from the context it was given, except in the 'detached' mode (then only from a server-side cancellable context)")
 	c.Assume("client and server run in one child process; all events go through one mutex-protected log, a client message is logged before it is written and a frame after it was read (spec/WsTrace.tla)")
-	c.Assume("start payloads that are JSON null (nil *RawParams dereference) belong to C10 and are not sent")
+	c.Assume("frames written after the server's close frame, and what ErrorFunc is called with, are not constrained by the statement")
 
+	for _, d := range []string{"tv", "tv-dev", "tv-strict", "tv-confirm", "tv-selftest", "race"} { // scratch of earlier runs
+		_ = os.RemoveAll(vlib.Work("C11", d))
+	}
 	bin := buildChild(c)
 
 	if os.Getenv("C11_ONLY") != "" { // development aid: play the scenarios whose id contains the given text, no model checking
@@ -224,10 +227,12 @@ func mcVariants() []mcVariant {
 		// operations after an accepted handshake: one id started twice / two ids, stop, terminate, abrupt close
 		{name: "ops-gws+L", cfg: L, liveness: true, set: map[string]string{}},
 		{name: "ops-tws", cfg: S, set: merge(tws, map[string]string{"Alphabet": "<- AlphaTwsOps"})},
-		{name: "ops-gws-cancel-ka", cfg: S, set: map[string]string{"MCCancel": "TRUE", "MCInitFn": "TRUE", "MCKA": "TRUE", "MaxTicks": "1", "SrcKinds": "<- KindsEnd"}},
+		{name: "ops-gws-cancel-ka", cfg: S, set: map[string]string{"MCCancel": "TRUE", "MCInitFn": "TRUE", "MCKA": "TRUE", "MaxTicks": "1", "SrcKinds": "<- KindsEnd", "MaxMsgs": "2"}},
+		{name: "ops-gws-cancel-ka-3msgs", cfg: S, thorough: true, set: map[string]string{"MCCancel": "TRUE", "MCInitFn": "TRUE", "MCKA": "TRUE", "MaxTicks": "1", "SrcKinds": "<- KindsEnd"}},
 		// the handshake: every first message, InitFunc accept/reject, InitTimeout, cancel
 		{name: "handshake-gws+L", cfg: L, liveness: true, set: merge(hsGws, oneInst, map[string]string{"MaxMsgs": "3"})},
-		{name: "handshake-tws+L", cfg: L, liveness: true, set: merge(hsTws, oneInst, map[string]string{"MaxMsgs": "3"})},
+		{name: "handshake-tws", cfg: S, set: merge(hsTws, oneInst, map[string]string{"MaxMsgs": "3"})},
+		{name: "handshake-tws+L", cfg: L, liveness: true, thorough: true, set: merge(hsTws, oneInst, map[string]string{"MaxMsgs": "3"})},
 		{name: "detached-gws+L", cfg: L, liveness: true, set: merge(detached, map[string]string{"SrcKinds": "<- KindsEnd"})},
 		// the pinned tree: TLC must reproduce the known findings
 		{name: "pinned-dup-start", cfg: "MC_WsImpl_pinned.cfg", expect: "Invariant Refines is violated", set: map[string]string{}},
@@ -322,8 +327,8 @@ func replayFamilies(thorough bool) []family {
 	opsG := merge(twoIds, map[string]string{"PreAcked": "TRUE", "Alphabet": "<- AlphaOps", "BadStarts": "FALSE", "MCInitTimeout": "FALSE", "MaxMsgs": "3"})
 	opsT := merge(opsG, tws, map[string]string{"Alphabet": "<- AlphaTwsOps"})
 	fs := []family{
-		{name: "handshake-gws", set: map[string]string{}, proto: "gws", limit: lim},
-		{name: "handshake-tws", set: merge(tws, map[string]string{"Alphabet": "<- AlphaTwsFull"}), proto: "tws", limit: lim},
+		{name: "handshake-gws", set: merge(twoIds), proto: "gws", limit: lim},
+		{name: "handshake-tws", set: merge(twoIds, tws, map[string]string{"Alphabet": "<- AlphaTwsFull"}), proto: "tws", limit: lim},
 		{name: "ops-gws", set: opsG, proto: "gws", pre: true, limit: lim},
 		{name: "ops-tws", set: opsT, proto: "tws", pre: true, limit: lim},
 	}
@@ -1078,6 +1083,7 @@ func judge(c *vlib.Check, bin string, scs []*Scenario, results []*played) {
 	if err != nil {
 		vlib.Infra("trace validation: %v", err)
 	}
+	fmt.Fprintf(os.Stderr, "[c11] %d traces validated: %d used named deviations, %d rejected\n", len(ts), len(devs), len(rej))
 	rejected := map[string]bool{}
 	devCount := map[string]int{}
 	strictChecked := 0
@@ -1156,6 +1162,7 @@ func judge(c *vlib.Check, bin string, scs []*Scenario, results []*played) {
 		c.Violate(key, detail, r.t.sc)
 	}
 	c.Set("findings_by_key", devCount)
+	selfTest(c, ts, devs, rejected)
 	// replay divergences of sessions whose trace the property accepts: the implementation-level
 	// model predicted an observation that did not come within the (confirmed) wait
 	drift := 0
@@ -1188,6 +1195,79 @@ func judge(c *vlib.Check, bin string, scs []*Scenario, results []*played) {
 		events += len(t.res.Events)
 	}
 	c.Set("events_validated", events)
+}
+
+// selfTest: binding is demonstrated, not assumed - accepted traces with one event dropped, doubled
+// or moved must be rejected by Ws.
+func selfTest(c *vlib.Check, ts []*tracedScenario, devs map[*tracedScenario][]string, rejected map[string]bool) {
+	var corrupt []*tracedScenario
+	mk := func(t *tracedScenario, name string, evs []Event) {
+		sc := *t.sc
+		sc.ID = t.sc.ID + "-selftest-" + name
+		corrupt = append(corrupt, &tracedScenario{sc: &sc, res: &Result{ID: sc.ID, Events: evs}})
+	}
+	done := map[string]bool{}
+	for _, t := range ts {
+		if len(devs[t]) > 0 || rejected[t.sc.ID] {
+			continue
+		}
+		evs := t.res.Events
+		idx := func(e, m string) int {
+			for i, ev := range evs {
+				if ev.E == e && (m == "" || ev.M == m) {
+					return i
+				}
+			}
+			return -1
+		}
+		without := func(i int) []Event { return append(append([]Event{}, evs[:i]...), evs[i+1:]...) }
+		if i := idx("CloseFn", ""); i >= 0 && !done["no-closefn"] {
+			done["no-closefn"] = true
+			mk(t, "no-closefn", without(i))
+		}
+		if i := idx("CloseFn", ""); i >= 0 && !done["closefn-twice"] {
+			done["closefn-twice"] = true
+			mk(t, "closefn-twice", append(append(append([]Event{}, evs[:i+1]...), evs[i]), evs[i+1:]...))
+		}
+		if i := idx("CRecv", "complete"); i >= 0 && !done["complete-twice"] {
+			done["complete-twice"] = true
+			mk(t, "complete-twice", append(append(append([]Event{}, evs[:i+1]...), evs[i]), evs[i+1:]...))
+		}
+		if i := idx("SEmit", ""); i >= 0 && idx("CRecv", "next") > i && !done["next-without-emit"] {
+			done["next-without-emit"] = true
+			mk(t, "next-without-emit", without(i))
+		}
+		if i, j := idx("InitFn", "accept"), idx("SStart", ""); i >= 0 && j > i && !done["start-before-accept"] {
+			done["start-before-accept"] = true
+			e2 := append([]Event{}, evs[:i]...)
+			e2 = append(e2, evs[j])
+			e2 = append(e2, evs[i:j]...)
+			e2 = append(e2, evs[j+1:]...)
+			mk(t, "start-before-accept", e2)
+		}
+		if len(done) == 5 {
+			break
+		}
+	}
+	if len(corrupt) == 0 {
+		return
+	}
+	rej, _, err := validate(c, "WsTraceDev.cfg", nil, corrupt, vlib.Work("C11", "tv-selftest"), false)
+	if err != nil {
+		vlib.Infra("trace validation (self-test): %v", err)
+	}
+	if len(rej) != len(corrupt) {
+		got := map[string]bool{}
+		for _, r := range rej {
+			got[r.t.sc.ID] = true
+		}
+		for _, t := range corrupt {
+			if !got[t.sc.ID] {
+				vlib.Infra("self-test: Ws accepts the corrupted trace %s - the trace specification does not bind", t.sc.ID)
+			}
+		}
+	}
+	c.Set("selftest_corrupted_traces_rejected", len(rej))
 }
 
 func divergeKind(d string) string {
